@@ -23,8 +23,11 @@ import (
 	"bytes"
 	"fmt"
 	"os"
+	"path/filepath"
 	"reflect"
+	"regexp"
 	"strings"
+	"time"
 
 	"github.com/cuteLittleDevil/go-jt808/service"
 
@@ -40,7 +43,50 @@ func main() {
 		ans, _ := runMem(evs)
 		return ans
 	})
+	RegisterOp("hold", func(a []string) string { return runHold(ParseSteps(a)) })
 	Main("C09", c09)
+}
+
+// wideCanon: memCanon plus every other exported field of the header (property word fields, version,
+// reply id, platform serial): at parser level, where no writer touches the message, none of them may change
+func wideCanon(m *service.Message) string {
+	h := m.JTMessage.Header
+	return fmt.Sprintf("%s|ver=%d frag=%d enc=%d blen=%d pv=%d rid=%d ps=%d phone=%s", memCanon(m), h.Property.Version,
+		h.Property.PacketFragmented, h.Property.EncryptMethod, h.Property.BodyDayaLen, h.ProtocolVersion, h.ReplyID,
+		h.PlatformSerialNumber, h.TerminalPhoneNo)
+}
+
+// runHold: op "hold f:<hex> a:<ms> ...": every message parse returns is held (as a handler would with
+// sub-package filtering off); after every later step - reads AND clock steps followed by reads that
+// make the parser generate re-requests - all held messages are rendered again
+func runHold(st []Step) string {
+	v := service.NewVerifParser()
+	cur := make([]byte, bufsz)
+	var msgs []*service.Message
+	var snaps []string
+	var changed []string
+	for i, s := range st {
+		if s.IsAge {
+			v.Age(time.Duration(s.Age) * time.Millisecond)
+			continue
+		}
+		n := copy(cur, s.Data)
+		got, _ := v.Feed(cur[:n])
+		for k, m := range msgs {
+			if c := wideCanon(m); c != snaps[k] {
+				changed = append(changed, fmt.Sprintf("msg%d@step%d:%s=>%s", k, i, snaps[k], c))
+				snaps[k] = c
+			}
+		}
+		for _, m := range got {
+			msgs = append(msgs, m)
+			snaps = append(snaps, wideCanon(m))
+		}
+	}
+	if len(changed) == 0 {
+		return "ok unchanged held=" + fmt.Sprint(len(msgs))
+	}
+	return "changed " + strings.Join(changed, " ; ")
 }
 
 type memEv struct {
@@ -358,7 +404,96 @@ func c09(c *Ctx) {
 		run(LimitChunks(Chunks(b, append(RandCuts(rng, len(b), rng.Intn(4)), ends[0])), bufsz), "malformed")
 	}
 
+	// (5) held sub-packages while the parser generates re-requests for their transfer (5 s idle): the
+	// record of a transfer must not share the header of the delivered first packet
+	nhold := 150
+	if !quick {
+		nhold = 3000
+	}
+	for i := 0; i < nhold; i++ {
+		n := 2 + rng.Intn(5)
+		tr := RandTransfer(rng, []uint16{0x0801, 0x0704, 0x0200}[rng.Intn(3)], n, 10)
+		st := []Step{{Data: tr.Packet(1).Wire()}}
+		for q := 3; q <= n; q++ {
+			if rng.Intn(2) == 0 {
+				st = append(st, Step{Data: tr.Packet(q).Wire()})
+			}
+		}
+		hb := FrameSpec{ID: 0x0002, Phone: tr.Phone, Ver2019: tr.Ver2019, Serial: 77}
+		rounds := 1 + rng.Intn(3)
+		for r := 0; r < rounds; r++ {
+			st = append(st, Step{Age: []int{5100, 9000, 20000}[rng.Intn(3)], IsAge: true}, Step{Data: hb.Wire()})
+		}
+		st = append(st, Step{Data: tr.Packet(2).Wire()}) // still missing others or completing
+		req := "hold " + StepsString(st)
+		ans := runHold(st)
+		c.Eval(req, true)
+		c.Count("held-during-rerequest")
+		if !strings.HasPrefix(ans, "ok") {
+			c.Violate(Violation{Signature: "C09/held-header-changed", What: "a message returned by parse changed while it was held and the parser generated a re-request for its transfer",
+				Input: req, Observed: Trunc(ans, 3000), Required: "held messages keep every header field, body and raw frame"})
+		}
+	}
+
+	staticHeaderScan(c)
 	socketRun(c)
+}
+
+// staticHeaderScan: the memory model keeps the header fields the property lists (message id, phone,
+// serial, package total and number) as VALUES: that is sound as long as nothing but Header.decode
+// assigns them and parse only ever decodes into a fresh JTMessage.  A scan of the current sources
+// of service/ and protocol/jt808/ (non-test files) checks exactly that.
+func staticHeaderScan(c *Ctx) {
+	root := os.Getenv("VERIF_REPO")
+	if root == "" {
+		root = "/repo"
+	}
+	assign := regexp.MustCompile(`\.(ID|SerialNumber|SubPackageSum|SubPackageNo|TerminalPhoneNo|bcdTerminalPhoneNo)\b[^=!<>:\n]*(=[^=]|\+\+|--)`)
+	var bad []string
+	for _, dir := range []string{"service", "protocol/jt808"} {
+		files, _ := filepath.Glob(filepath.Join(root, dir, "*.go"))
+		for _, f := range files {
+			if strings.HasSuffix(f, "_test.go") {
+				continue
+			}
+			src, err := os.ReadFile(f)
+			if err != nil {
+				continue
+			}
+			lines := strings.Split(string(src), "\n")
+			fn := ""
+			for i, l := range lines {
+				if strings.HasPrefix(l, "func ") {
+					fn = l
+				}
+				code := l
+				if k := strings.Index(code, "//"); k >= 0 {
+					code = code[:k]
+				}
+				if assign.MatchString(code) && !strings.Contains(code, ":=") && !strings.Contains(code, "{") &&
+					!(strings.HasSuffix(f, "protocol/jt808/jt808.go") && strings.HasPrefix(fn, "func (h *Header) decode(")) {
+					bad = append(bad, fmt.Sprintf("%s:%d: %s", strings.TrimPrefix(f, root+"/"), i+1, strings.TrimSpace(l)))
+				}
+				if dir == "service" && strings.Contains(code, ".Decode(") {
+					fresh := false
+					for j := i - 1; j >= 0 && j >= i-3; j-- {
+						if strings.Contains(lines[j], "jt808.NewJTMessage()") {
+							fresh = true
+						}
+					}
+					if !fresh {
+						bad = append(bad, fmt.Sprintf("%s:%d: Decode into a JTMessage that is not fresh: %s", strings.TrimPrefix(f, root+"/"), i+1, strings.TrimSpace(l)))
+					}
+				}
+			}
+		}
+	}
+	c.Eval("static header-field scan", true)
+	c.Count("static/header-fields")
+	if len(bad) > 0 {
+		c.Violate(Violation{Signature: "C09/header-field-assigned", What: "a listed header field of a possibly delivered message is assigned outside Header.decode (or parse decodes into a reused JTMessage)",
+			Input: "hold -", Observed: Trunc(strings.Join(bad, " ; "), 3000), Required: "message id, phone, serial and package numbers are written only by Header.decode on a fresh JTMessage"})
+	}
 }
 
 func sortInts(a []int) {
